@@ -732,6 +732,15 @@ class SVG:
         """
         Removes groups where possible, applies transforms, applies clip paths.
         """
+        # opacity on the root applies to the document as a whole, as it would on
+        # a group; hand it to one so it is pushed down or kept like any other
+        root_opacity = self.svg_root.attrib.pop("opacity", None)
+        if root_opacity is not None:
+            group = etree.Element(f"{{{svgns()}}}g", nsmap=self.svg_root.nsmap)
+            group.attrib["opacity"] = root_opacity
+            group.extend(self.svg_root)
+            self.svg_root.append(group)
+
         # Reversed: we want leaves first
         to_process = reversed(tuple(c for c in self.breadth_first()))
 
